@@ -3,6 +3,7 @@ mod c01;
 mod c03;
 mod c07;
 mod c13;
+mod c17;
 mod c19;
 mod c19b;
 mod common;
@@ -71,6 +72,7 @@ fn main() {
         "C03" => c03::run(tier),
         "C07" => c07::run(tier),
         "C13" => c13::run(tier),
+        "C17" => c17::run(tier),
         "kat" => match kat::run_kats() {
             Ok(n) => {
                 println!("{} KATs ok", n);
